@@ -267,4 +267,95 @@ func c08pair(tk []string, cs *h.Case) (string, string) {
 	return fmt.Sprintf("link=%s fwd=%s back=%s", link, f, b), ""
 }
 
+// c08retryKind is the description of what answers an attempt (nil, true: no certificate at all).
+func c08retryKind(kind, suite, tlsv string) (*c08desc, bool) {
+	d := c08desc{role: "dial", suite: suite, tlsv: tlsv, op: "v", them: "v", ncerts: 1, der: "ok", signedby: "self", time: "ok",
+		uris: "new:v", cn: "new:v", sig: "v/cur/new:v", nonce: "ok", id: "-", via: "key", live: "none", decoy: "none"}
+	switch kind {
+	case "abort":
+		return nil, true
+	case "honest":
+	case "badproof":
+		d.sig = "junk"
+	case "otherkey":
+		d.op, d.uris, d.cn, d.sig = "a", "new:a", "new:a", "a/cur/new:a"
+	case "expired":
+		d.time = "expired"
+	default:
+		return nil, false
+	}
+	return &d, true
+}
+
+// c08retry: the honest node dials key v at an address where the first `fails` attempts are answered
+// one way and the later ones another way (fault sequences of the dialling role).
+func c08retry(tk []string, cs *h.Case) (string, string) {
+	m, ok := c08kv(tk, "suite", "tlsv", "fails", "first", "then")
+	if !ok || !c08in(m["suite"], "ed", "g1", "g2") || !c08in(m["tlsv"], "12", "13") || len(m["fails"]) != 1 || m["fails"][0] < '0' || m["fails"][0] > '6' {
+		return "bad-op", ""
+	}
+	fails := int(m["fails"][0] - '0')
+	first, ok1 := c08retryKind(m["first"], m["suite"], m["tlsv"])
+	then, ok2 := c08retryKind(m["then"], m["suite"], m["tlsv"])
+	if !ok1 || !ok2 {
+		return "bad-op", ""
+	}
+	hn := c08node0(m["suite"])
+	w := c08newWorld(m["suite"], hn.kp)
+	tok := fmt.Sprintf("r%d", atomic.AddInt64(&c08tokens, 1))
+	thenD := c08desc{}
+	if then != nil {
+		thenD = *then
+	} else {
+		// nothing but aborted attempts afterwards
+		thenD = c08desc{role: "dial", suite: m["suite"], tlsv: m["tlsv"], op: "v", them: "v", der: "ok", signedby: "self", time: "ok",
+			uris: "none", cn: "junk", sig: "none", nonce: "ok", id: "-", via: "key", live: "none", decoy: "none"}
+	}
+	run := func(viaRouter bool) (string, int) {
+		srv, err := c08startServer(w, thenD, tok)
+		if err != nil {
+			cs.Fail("harness", err.Error())
+			return "harness-error", 0
+		}
+		defer srv.close()
+		srv.mu.Lock()
+		srv.failFirst, srv.firstKind = fails, first
+		srv.mu.Unlock()
+		them := network.NewServerIdentity(w.keys["v"].Public, network.NewTLSAddress(srv.addr()))
+		link := "fail"
+		if viaRouter {
+			if _, err := hn.r.Send(them, &C08Msg{Tok: "out-" + tok}); err == nil {
+				link = "ok"
+			}
+		} else if c, err := network.NewTLSConn(hn.id, them, hn.suite); err == nil {
+			link = "ok"
+			c.Close()
+		}
+		srv.mu.Lock()
+		n := len(srv.nonces)
+		srv.mu.Unlock()
+		return link, n
+	}
+	link, n := run(false)
+	link2, n2 := run(true)
+	obs := fmt.Sprintf("link=%s attempts=%d", link, n)
+	// the property's own verdict: a link may only come from an attempt that was answered with the
+	// dialled key's own fresh proof
+	deciding := func(n int) string {
+		if n >= 1 && n <= fails {
+			return m["first"]
+		}
+		return m["then"]
+	}
+	switch {
+	case link == "ok" && deciding(n) != "honest":
+		cs.Fail("unproven-key-accepted-on-retry:"+m["first"]+"-then-"+m["then"], fmt.Sprintf("NewTLSConn returned a connection at attempt %d, which was answered with %q (the %d attempts before with %q): no proof of the dialled key was presented (%s)", n, deciding(n), fails, m["first"], strings.Join(tk, " ")))
+	case link2 == "ok" && deciding(n2) != "honest":
+		cs.Fail("unproven-key-accepted-on-retry:"+m["first"]+"-then-"+m["then"], fmt.Sprintf("Router.Send established a link at attempt %d, which was answered with %q: no proof of the dialled key was presented (%s)", n2, deciding(n2), strings.Join(tk, " ")))
+	case link != link2 || n != n2:
+		cs.Fail("unstable:retry", fmt.Sprintf("NewTLSConn: link=%s after %d attempts, Router.Send: link=%s after %d attempts (%s)", link, n, link2, n2, strings.Join(tk, " ")))
+	}
+	return obs, ""
+}
+
 var _ = bytes.Equal
